@@ -190,7 +190,8 @@ pub fn layout_type(
         let zero_len_array = sz.size == 0 && matches!(ty, Type::Array(..) | Type::Unknown(_));
         if !zero_len_array {
             members.push(Member {
-                kind: if name.as_str() == "_" { MemberKind::Gap } else { MemberKind::Field(idx) },
+                // `Gap` is reserved for padding the layout rule itself inserts
+                kind: MemberKind::Field(idx),
                 name: (name.as_str() != "_").then(|| name.0.clone()),
                 offset: cur,
                 size: sz.size,
